@@ -1,7 +1,7 @@
 """C13 — command tokenising is total, and quoting protects any argument.
 Correspondence of lean/LimnoriaModel/C13/Model.lean with src/shlex.py, callbacks.Tokenizer,
 callbacks.tokenize and utils.str.dqrepr; plus the property statement evaluated on the implementation."""
-import codecs, json, os, sys, warnings
+import codecs, json, os, re, sys, warnings
 from vlib import wire, rng, leanbuild, verdict, bot, CORPUS, VERIF
 from vlib.verdict import Case
 
@@ -58,7 +58,9 @@ def classify(msg):
     if msg.startswith('Spurious "'): return 'spuriousRight'
     if 'nothing preceding' in msg: return 'pipeNothingBefore'
     if 'nothing following' in msg: return 'pipeNothingAfter'
-    if '\\N character escape' in msg or 'unknown Unicode character name' in msg: return 'namedEscape'
+    if 'malformed \\N character escape' in msg: return 'malformedN'
+    if 'unknown Unicode character name' in msg: return 'unknownName'
+    if 'surrogates not allowed' in msg: return 'surrogate'
     return 'other:' + msg[:60]
 
 def valid_unicode(s):
@@ -279,7 +281,8 @@ ESCAPES = ['\\n', '\\t', '\\x41', '\\x4', '\\xc3\\xa9', '\\xc2\\x80', '\\x80', '
            '\\U0001f600', '\\U00110000', '\\U0010ffff', '\\ud800', '\\udfff', '\\101', '\\777', '\\400', '\\7', '\\18', '\\08',
            '\\q', '\\ ', '\\\n', '\\a', '\\b', '\\f', '\\v', '\\r', "\\'", '\\e9', '\\xe9', '\\XE9', '\\xE9', '\\xeg',
            '\\xed\\xa0\\x80', '\\xc0\\x80', '\\xe0\\x80\\x80', '\\xf4\\x90\\x80\\x80', '\\xf0\\x9f\\x98\\x80', '\\xe4\\xb8', '\\u00c3\\u00a9',
-           '\\303\\251', '\\0', '\\U0000', '\\u', '\\x', '\\U', '\\', '\\N{DIGIT ONE}', '\\N{bad}', '\\N']
+           '\\303\\251', '\\0', '\\U0000', '\\u', '\\x', '\\U', '\\', '\\N{DIGIT ONE}', '\\N{bad}', '\\N', '\\N{}', '\\N{digit one}', '\\N{LATIN SMALL LETTER E WITH ACUTE}',
+           '\\N{LF}', '\\N{LATIN SMALL LETTER A WITH MACRON AND GRAVE}', '\\N{CJK UNIFIED IDEOGRAPH-4E2D}', '\\N{DIGIT ONE', '\\Nx', '\\N{é}']
 WORDS = ['a', 'b', 'foo', 'bar', 'x1', 'é', 'ß', 'Â', '\x80', '\xa0', '\xff', 'Ã©', 'Â\x80', 'λ', '中', '好', '😀', 'ÿ', 'Ā', 'à¤', '\x7f', '\x1f', 'N', '~']
 
 def gen_conf(r):
@@ -423,8 +426,6 @@ class Explorer(object):
             ok = False; msg = 'nesting is off but tokenize(%r) contains a sub-list: %r' % (s, r)
         elif r is not None and unencodable_tokens(r):
             ok = False; msg = 'tokenize(%r) contains a token that is not a string of Unicode scalar values (cannot be encoded): %r' % (s, unencodable_tokens(r))
-            if in_surrogate_class(s, r):
-                finding = FINDING_SURR
         tags = list(extra_tags)
         o = out.split('\t')
         if o[0] == 'syntax': tags.append('err:' + o[1])
@@ -459,7 +460,7 @@ def explore(impl, r, n, corpus=()):
             w = item.get('writer', 'quote')
             f = quote if w == 'quote' else impl.ustr.dqrepr
             xs = item['xs']
-            fnd = FINDING_DQREPR if (w == 'dqrepr' and any(in_dqrepr_class(x) for x in xs)) else None
+            fnd = None
             ex.tok(cf, ' '.join(f(x) for x in xs), 'corpus', expect=xs, finding=fnd, extra_tags=('w:' + w,))
         else:
             ex.tok(cf, item['s'], 'corpus')
@@ -478,9 +479,9 @@ def explore(impl, r, n, corpus=()):
             cf = cf[:3] + ('"' + cf[3],)
         xs = gen_args(r)
         if not all(valid_unicode(x) for x in xs): continue
-        fnd = FINDING_DQREPR if any(in_dqrepr_class(x) for x in xs) else None
+        fnd = None
         ex.tok(cf, ' '.join(impl.ustr.dqrepr(x) for x in xs), 'dqrepr', expect=xs, finding=fnd,
-               extra_tags=('w:dqrepr',) + (('dqrepr-class',) if fnd else ()))
+               extra_tags=('w:dqrepr',) + (('latin1-utf8-text',) if any(in_dqrepr_class(x) for x in xs) else ()))
     for _ in range(n.get('nest', 0)):
         b = r.choice(BRACKETS[1:])
         cf = (True, b, r.random() < 0.4, r.choice(['"', '"', '"\'', '`"']))
@@ -565,14 +566,36 @@ def explore(impl, r, n, corpus=()):
         ex.simple('quote', [wire.enc(x)], wire.enc(quote(x)), 'writers', ('quote',), dict(s=x))
     return ex
 
-def fill_model(ex):
-    outs = wire.run_driver(PROPERTY, ex.lines)
-    for c, o in zip(ex.pend, outs):
-        if o == 'outside':
-            # \N{...}: outside the model; only the totality oracle applies (no comparison)
-            c.model = None; c.impl = None
-            c.tags = tuple(c.tags) + ('outside-model',)
+NAME_RE = re.compile(rb'\\N\{([^}]*)\}')
+def name_table(lines):
+    """the parameter `names` of the model: for every \\N{...} name occurring in the inputs, what the
+    codec's own name table answers (asked through the codec, one name at a time)"""
+    names = set()
+    for l in lines:
+        for f in l.split('\t')[1:]:
+            try:
+                b = bytes.fromhex(f)
+            except ValueError:
+                continue
+            names.update(NAME_RE.findall(b))
+    out = []
+    for nm in sorted(names):
+        if not nm:
             continue
+        try:
+            r = codecs.getdecoder('unicode_escape')(b'\\N{' + nm + b'}')[0]
+        except ValueError:
+            continue
+        if len(r) == 1:
+            out.append('uname\t%s\t%d' % (nm.hex(), ord(r)))
+    return out
+
+def fill_model(ex):
+    tab = name_table(ex.lines)
+    outs = wire.run_driver(PROPERTY, tab + ex.lines)
+    if any(o != 'ok' for o in outs[:len(tab)]):
+        raise RuntimeError('driver rejected a name-table line')
+    for c, o in zip(ex.pend, outs[len(tab):]):
         c.model = o
     return ex.cases
 
